@@ -42,7 +42,8 @@ func analyseDecode(p *Prog) *decodeAnatomy {
 		a.cancel = c.Value.Int64()
 	}
 	f := s.fn
-	// skipped cell: the bool Alloc whose load is stored into the result's `skipped` field by the deferred closure
+	// skipped cell: the bool Alloc whose load is stored into the result's `skipped` field by the exit handler
+	// (a free variable of a deferred closure, or a pointer parameter of a deferred method)
 	if s.deferred != nil {
 		eachInstr(s.deferred, func(i ssa.Instruction) {
 			st, ok := i.(*ssa.Store)
@@ -54,17 +55,8 @@ func analyseDecode(p *Prog) *decodeAnatomy {
 				return
 			}
 			if u, ok := st.Val.(*ssa.UnOp); ok && u.Op == token.MUL {
-				if fvr, ok := u.X.(*ssa.FreeVar); ok {
-					// map the free variable back to the parent's alloc
-					for i, x := range s.deferred.FreeVars {
-						if x == fvr {
-							eachInstr(f, func(j ssa.Instruction) {
-								if mc, ok := j.(*ssa.MakeClosure); ok && mc.Fn == s.deferred && i < len(mc.Bindings) {
-									a.skipCell = mc.Bindings[i]
-								}
-							})
-						}
-					}
+				if b := bindingOf(f, s.deferred, u.X); b != nil {
+					a.skipCell = b
 				}
 			}
 		})
@@ -118,14 +110,12 @@ func analyseDecode(p *Prog) *decodeAnatomy {
 			if !ok {
 				continue
 			}
-			if s.counterLoad(v) && kc == a.cancel {
-				a.cancelEdge = append(a.cancelEdge, edge{b, succFor(pos, bo.Op == token.EQL)})
-			}
 			if c, ok := v.(*ssa.Call); ok && kc == 0 && c.Call.IsInvoke() && fieldVarOfLoad(c.Call.Value) == s.stream && c.Call.Method.Name() == "ReadBits" {
 				a.endEdge = append(a.endEdge, edge{b, succFor(pos, bo.Op == token.EQL)})
 			}
 		}
 	}
+	a.cancelEdge = s.cancelEdges(f)
 	if a.inv != nil {
 		var invErr ssa.Value
 		for _, ref := range *a.inv.Referrers() {
@@ -141,9 +131,9 @@ func analyseDecode(p *Prog) *decodeAnatomy {
 			}
 		}
 	}
-	for _, w := range s.counterWrites(f) {
+	for _, w := range s.counterWritesLifted(f) {
 		c := callOf(w)
-		if c != nil && len(c.Args) >= 2 {
+		if c != nil && len(c.Args) >= 2 && !s.lifted[w] && helperCallee(w, FnPkg(f)) == nil {
 			if v, ok := constInt(c.Args[1]); ok && v == a.cancel {
 				continue
 			}
@@ -151,7 +141,7 @@ func analyseDecode(p *Prog) *decodeAnatomy {
 		a.release = append(a.release, w)
 	}
 	for _, u := range s.sharedUses(f) {
-		if c := callOf(u); c != nil && c.IsInvoke() {
+		if c := callOf(u); c != nil && c.IsInvoke() && !s.lifted[u] {
 			a.sharedOps = append(a.sharedOps, u)
 		}
 	}
